@@ -122,6 +122,25 @@ Theorem C20_verify_leaves_other_format :
 Proof. exact verify_leaves_other_format. Qed.
 Print Assumptions C20_verify_leaves_other_format.
 
+(* "Serves": the HTTP chunk handler's name rule.  A request path is accepted only in the shape
+   /<first 4 characters of the name>/<64 hex digits><extension of the SERVER's format>; the canonical name of
+   the server's format is accepted; no path is accepted by both a compressed-chunk and an
+   uncompressed-chunk server -- so a server never answers for a name of the other format. *)
+Theorem C20_http_name_rule : forall comp p i, http_id_from_path comp p = Some i ->
+  exists sid, p = slash :: firstn 4 sid ++ slash :: sid ++ ext_of (negb comp) /\ unhex_id sid = Some i.
+Proof. exact http_path_rule. Qed.
+Print Assumptions C20_http_name_rule.
+
+Theorem C20_http_accepts_own_name : forall comp i, wf_id i ->
+  http_id_from_path comp (slash :: firstn 4 (hex_id i) ++ slash :: hex_id i ++ ext_of (negb comp)) = Some i.
+Proof. exact http_path_accepts_canonical. Qed.
+Print Assumptions C20_http_accepts_own_name.
+
+Theorem C20_http_names_disjoint : forall p i j,
+  http_id_from_path true p = Some i -> http_id_from_path false p = Some j -> False.
+Proof. exact http_paths_disjoint. Qed.
+Print Assumptions C20_http_names_disjoint.
+
 (* ---------- non-vacuity ---------- *)
 Definition ex_H (b : bytes) : id := fold_right N.add 0%N b.
 Definition ex_zcomp (b : bytes) : option bytes := Some (40 :: 181 :: b)%N.
